@@ -202,3 +202,62 @@ def cross_index(E, s):
     E.true('called', state['calls'] > 0)
     E.true('result_shape', isinstance(y, E.tt.TT) and list(y.N) == N)
     E.true('result_ranks', y.R[0] == 1 and y.R[-1] == 1 and all(int(c.shape[0]) == int(y.R[k]) and int(c.shape[2]) == int(y.R[k + 1]) for k, c in enumerate(y.cores)))
+
+
+@scenario
+def interp_structure(E, s):
+    """function_interpolate (univariate: x a TT tensor; multivariate: x a list of TT tensors): returns a well-formed TT tensor
+    of the shape of x and raises nothing, whatever the data does; the user function receives arguments of the documented form"""
+    tn, tt = E.tn, E.tt
+    ip = tt.interpolate
+    N = list(s['N'])
+    d = len(N)
+    nargs = s.get('nargs', 0)          # 0: univariate
+    kw = {'nswp': s.get('nswp', 1), 'kick': s.get('kick', 2)}
+    state = {'calls': 0, 'bad': 0}
+
+    def mk(R):
+        if E.mode == 'real':
+            return tt.TT([tn.rand(R[k], N[k], R[k + 1], dtype=tn.float64) + 0.5 for k in range(d)])
+        return tt.TT([E.havoc_tensor([R[k], N[k], R[k + 1]]) for k in range(d)])
+
+    def f_uni(t):
+        state['calls'] += 1
+        if not tn.is_tensor(t):
+            state['bad'] += 1
+        if E.mode == 'real':
+            return 1.0 / (1.0 + t * t)
+        return E.havoc_tensor([int(v) for v in t.shape])
+
+    def f_multi(Tm):
+        state['calls'] += 1
+        if not (tn.is_tensor(Tm) and Tm.dim() == 2 and int(Tm.shape[1]) == nargs):
+            state['bad'] += 1
+            return E.havoc_tensor([int(Tm.shape[0])]) if E.mode != 'real' else tn.zeros(Tm.shape[0], dtype=tn.float64)
+        if E.mode == 'real':
+            return 1.0 / (2.0 + tn.sum(Tm * Tm, 1))
+        return E.havoc_tensor([int(Tm.shape[0])])
+    runs = range(4) if E.mode == 'real' else [0]
+    for seed in runs:
+        if E.mode == 'real':
+            tn.manual_seed(seed)
+        xs = [mk(s['Rx']) for _ in range(max(nargs, 1))]
+        start = mk(s['start_ranks']) if s.get('start_ranks') else None
+        saved = None
+        if E.mode != 'real':
+            saved = (ip._maxvol, ip.rank_chop)
+            ip._maxvol = _maxvol_contract(E)
+            ip.rank_chop = _rank_chop_contract(E)
+        try:
+            if nargs:
+                y = ip.function_interpolate(f_multi, xs, s.get('eps', 1e-9), start_tens=start, **kw)
+            else:
+                y = ip.function_interpolate(f_uni, xs[0], s.get('eps', 1e-9), start_tens=start, **kw)
+        finally:
+            if saved is not None:
+                ip._maxvol, ip.rank_chop = saved
+        E.true('calls_wellformed', state['bad'] == 0)
+        E.true('result_shape', isinstance(y, tt.TT) and list(y.N) == N and not y.is_ttm)
+        E.true('result_ranks', y.R[0] == 1 and y.R[-1] == 1 and all(int(c.shape[0]) == int(y.R[k]) and int(c.shape[2]) == int(y.R[k + 1]) for k, c in enumerate(y.cores)))
+        if any(r['status'] != 'ok' for r in E.results):
+            return
